@@ -13,8 +13,14 @@ import sigtools
 LEVEL = 'proof'
 
 
-def po_star_names(d):
-    return {p[0] for p in d['params'] if p[1] in ('PO', 'VP', 'VK')}
+def po_star_names(d, n=0):
+    """names a bound keyword may not carry for the exactness statement (the hypothesis of
+    C19_names_exact): the star parameters' names and the positional-only parameters that the n
+    bound positionals do NOT consume (a keyword spelled like a CONSUMED positional-only
+    parameter simply goes to **kwargs)"""
+    pos = [p for p in d['params'] if p[1] in ('PO', 'PK')]
+    return ({p[0] for p in d['params'] if p[1] in ('VP', 'VK')}
+            | {p[0] for p in pos[n:] if p[1] == 'PO'})
 
 
 def real_partial_result(d, n, kw, auto):
@@ -56,7 +62,9 @@ def structure(c, r):
     consumed = {p[0] for p in pos[:c.n]}
     rnames = {p[0]: p for p in r['params']}
     for nm in consumed:
-        if nm in rnames:
+        # (a keyword spelled like a consumed positional-only parameter is absorbed by **kwargs
+        # and shows up as a keyword-only parameter of that name: not the bound positional)
+        if nm in rnames and nm not in dict(c.kw):
             out.append('bound positional %s still present' % name_of(nm))
     pk = [p for p in pos[c.n:] if p[1] == 'PK']
     bound = dict(c.kw)
@@ -91,7 +99,7 @@ def decide(triples):
     out, reqs, meta = [], [], []
     for c, m, i in triples:
         names = [k for k, v in c.kw]
-        if set(names) & po_star_names(c.d):
+        if set(names) & po_star_names(c.d, c.n):
             continue
         if i[0] == 'ok':
             reqs.append('partialexact %s %s %d %s' % (tok_sig(i[1]), tok_sig(c.d), c.n, tok_names(names)))
@@ -258,13 +266,13 @@ def run(ctx, rep):
         for auto in (False, True):
             res, p = real_partial_result(c.d, c.n, c.kw, auto)
             nreal += 1
-            if auto and res[0] == 'err' and not (set(names) & po_star_names(c.d)) and i[0] == 'ok':
+            if auto and res[0] == 'err' and not (set(names) & po_star_names(c.d, c.n)) and i[0] == 'ok':
                 rep.violation('C19:retrieval', 'sigtools.signature(%s) raised %s' % (c.show(), res[1]), dict(c.data(), kind='real'))
             if not auto and proj_shape(res) != proj_shape(i):
                 rep.corr_break('signatures.signature(real partial) vs _mask in partial mode', c.show(), str(proj_shape(i)), str(proj_shape(res)))
             if auto and res[0] == 'ok' and i[0] == 'ok' and proj_shape(res) != proj_shape(i):
                 rep.violation('C19:auto', 'sigtools.signature(%s) = %s differs from signatures.signature = %s' % (c.show(), show_sig(res[1]), show_sig(i[1])), dict(c.data(), kind='real'))
-        if set(names) & po_star_names(c.d):
+        if set(names) & po_star_names(c.d, c.n):
             continue
         if i[0] == 'ok':
             shape_req.append('shapes 2 %s %s' % (tok_sig(i[1]), tok_sig(c.d)))
